@@ -39,6 +39,34 @@ def variant_dir(name):
     return os.path.join(BUILD, name)
 
 
+def _refresh_stub_includes(d):
+    """The project's CMake rules make a generated stub module depend on its .stub file only; C files a stub pulls in with
+    (c-include-verbatim "x.c") -- lib/chibi/io/port.c, lib/chibi/signal.c, ... -- are not tracked, so an edit there would be missed by
+    an incremental build. Drop the generated C file when an included source is newer; ninja then regenerates and recompiles it."""
+    import re
+    libroot = os.path.join(REPO, "lib")
+    for root, _dirs, files in os.walk(libroot):
+        for f in files:
+            if not f.endswith(".stub"):
+                continue
+            stub = os.path.join(root, f)
+            try:
+                text = open(stub, encoding="utf-8", errors="replace").read()
+            except OSError:
+                continue
+            incs = re.findall(r'\(c-include-verbatim\s+"([^"]+)"\)', text)
+            if not incs:
+                continue
+            gen = os.path.join(d, os.path.relpath(stub, REPO))[:-5] + ".c"
+            if not os.path.exists(gen):
+                continue
+            for inc in incs:
+                src = os.path.join(root, inc)
+                if os.path.exists(src) and os.path.getmtime(src) > os.path.getmtime(gen):
+                    os.remove(gen)
+                    break
+
+
 def build_variant(name, quiet=True):
     """Incremental build of one variant from /repo's working tree. Serialised by flock."""
     v = VARIANTS[name]
@@ -56,6 +84,7 @@ def build_variant(name, quiet=True):
             if v["ldflags"]:
                 cmd += ["-DCMAKE_EXE_LINKER_FLAGS=" + v["ldflags"], "-DCMAKE_SHARED_LINKER_FLAGS=" + v["ldflags"]]
             _run(cmd, env=env)
+        _refresh_stub_includes(d)
         _run(["ninja", "-C", d, "chibi-scheme", "chibi-compiled-libs"], env=env)
         # chibisim: rebuild when its sources or the core library are newer
         sim = os.path.join(d, "chibisim")
